@@ -205,6 +205,8 @@ class PyEval(MiniEval):
     def attr(self, value: Any, name: str, node: ast.Attribute, env: dict) -> Any:
         if isinstance(value, Tok) and name in value.attrs:
             return value.attrs[name]
+        if name in BUILTIN_TYPES and isinstance(node.value, ast.Name) and node.value.id == "builtins" and "builtins" not in env:
+            return BUILTIN_TYPES[name]  # `builtins.int` as a class (isinstance tests); calls of it are hooked by their dotted name
         if isinstance(value, Tok) and "__classes__" in value.attrs:
             # property / cached_property defined in one of the token's classes (MRO order)
             for c in value.attrs["__classes__"]:
@@ -1082,7 +1084,14 @@ class PyEval(MiniEval):
                 # a class name that the caller also hooks as a constructor: identify it by its source name
                 srcs = node.args[1].elts if isinstance(node.args[1], ast.Tuple) else ([node.args[1]] if not isinstance(node.args[1], ast.BinOp) else None)
                 if srcs is not None and len(srcs) == len(ts):
-                    ts = tuple(Opaque(ast.unparse(s)) if callable(x) and not isinstance(x, type) else x for s, x in zip(srcs, ts))
+                    def _as_class(s_: ast.expr, x_: Any) -> Any:
+                        if not (callable(x_) and not isinstance(x_, type)):
+                            return x_
+                        u_ = ast.unparse(s_)
+                        if u_.startswith("builtins.") and u_[9:] in BUILTIN_TYPES:
+                            return BUILTIN_TYPES[u_[9:]]  # `builtins.int`, hooked as a call, is still the class int in a type test
+                        return Opaque(u_)
+                    ts = tuple(_as_class(s, x) for s, x in zip(srcs, ts))
             if all(isinstance(x, type) for x in ts):
                 return (not isinstance(v, Tok)) and isinstance(v, ts)
             if isinstance(v, Tok) and all(isinstance(x, Opaque) for x in ts):
